@@ -20,7 +20,19 @@ pairs.  The bond oracle follows the documented format semantics:
   computed from ``fixtures.make_ccd.BY_ID`` (not from biotite);
 * ``connect_via_residue_names`` (documented) adds the C-N / O3'-P link between
   adjacent linking residues of one chain; where the input lacks such a link
-  it is expected additionally (label ``link_added_by_reader``).
+  it is expected additionally if the residue ids are consecutive (label
+  ``link_added_by_reader``) and accepted, not demanded, otherwise (same id
+  with another insertion code, descending ids: ``link_optional_...``).
+
+Where the documentation leaves several outcomes open the check accepts each of
+them, says in a label which one occurred and still compares the result with
+the reference of that reading (``BondSpec``, ``occupancy_readings``,
+``read_structure``): CCD fall-back or "no bonds" for a structure without
+intra-residue bonds written with ``include_bonds=True``; sum / mean / max of
+the occupancies of an alternate-location id; the refusal to assign
+``struct_conn`` rows when two equal residues share chain and residue id
+(``set_structure`` Notes); any exception type for a non-existent model or an
+unknown ``altloc`` option; any placeholder for "no alternate location".
 
 Model selection and alt-loc policies are compared with index arithmetic / a
 small reference filter written here.
@@ -40,7 +52,8 @@ PROPERTY = "C04"
 RULE = (
     "structures built from residues (names known and unknown to the synthetic CCD, awkward chain/atom names, "
     "negative/large residue ids, insertion codes, hetero, optional fields, box, intra- and inter-residue bonds) "
-    "written to CIF (serialize + StringIO), BinaryCIF and compressed BinaryCIF; non-trivial = >= 2 residues and "
+    "written to CIF (serialize + StringIO), BinaryCIF and compressed BinaryCIF (file or block object handed to "
+    "set_structure); non-trivial = >= 2 residues and "
     "(>= 1 inter-residue bond or >= 2 models or a name containing a quote/prime)"
 )
 
@@ -271,13 +284,19 @@ def ccd_intra_bonds(fl, spans):
     return out
 
 
-def reader_links(fl, spans):
-    """bonds connect_via_residue_names() documents for adjacent linking residues"""
+def reader_links(fl, spans, with_diff=False):
+    """bonds connect_via_residue_names() documents for adjacent linking residues.
+
+    The documentation speaks of "adjacent residues" / "consecutive amino acids and nucleotides"; the
+    implementation links every pair of neighbours in the array whose residue ids do not differ by more than
+    +1 (so also 50 -> 49 or 30 -> -20).  Only the difference +1 is what the documentation certainly means;
+    with_diff=True returns (i, j, res_id difference) so that the caller can tell the two apart."""
     out = []
     for (s0, e0), (s1, e1) in zip(spans, spans[1:]):
         if fl["chain_id"][s0] != fl["chain_id"][s1]:
             continue
-        if fl["res_id"][s1] - fl["res_id"][s0] > 1:
+        diff = fl["res_id"][s1] - fl["res_id"][s0]
+        if diff > 1:
             continue
         c0, c1 = _link_class(fl["res_name"][s0]), _link_class(fl["res_name"][s1])
         if c0 is None or c0 != c1:
@@ -286,12 +305,39 @@ def reader_links(fl, spans):
         i = [k for k in range(s0, e0) if fl["atom_name"][k] == x]
         j = [k for k in range(s1, e1) if fl["atom_name"][k] == y]
         if i and j:
-            out.append((i[0], j[0]))
+            out.append((i[0], j[0], diff) if with_diff else (i[0], j[0]))
     return out
 
 
+class BondSpec:
+    """what the bond list read back may look like.
+
+    alternatives: list of (label, dict) - complete acceptable bond dicts apart from the optional links;
+    optional: {(i, j): type} - bonds whose presence is accepted but not demanded."""
+
+    def __init__(self, alternatives, optional):
+        self.alternatives = alternatives
+        self.optional = optional
+
+    def match(self, got):
+        """-> label of the alternative that equals `got` (optional links disregarded) or None"""
+        core = {k: t for k, t in got.items() if not (k in self.optional and self.optional[k] == t)}
+        for label, want in self.alternatives:
+            if core == want:
+                return label
+        return None
+
+    def nearest(self, got):
+        core = {k: t for k, t in got.items() if not (k in self.optional and self.optional[k] == t)}
+
+        def dist(want):
+            return len(set(want.items()) ^ set(core.items()))
+
+        return core, min((w for _, w in self.alternatives), key=dist)
+
+
 def expected_bonds(o, case, fl, spans, write_intra):
-    """-> dict {(i, j): type} or None when the case is outside the domain"""
+    """-> BondSpec or None when the case is outside the domain"""
     inp = bond_dict(case["bonds"])
     res_of = {}
     for ri, (s, e) in enumerate(spans):
@@ -302,23 +348,54 @@ def expected_bonds(o, case, fl, spans, write_intra):
     if intra and write_intra:
         if not bonds_consistent_per_name(fl, spans, inp):
             return None
-        exp = dict(intra)
+        intra_alts = [("intra_as_written", dict(intra))]
         o.label("intra_from_chem_comp_bond")
     else:
-        exp = ccd_intra_bonds(fl, spans)
-        if exp != intra:
+        ccd = ccd_intra_bonds(fl, spans)
+        intra_alts = [("intra_from_ccd", ccd)]
+        if ccd != intra:
             o.label("intra_from_ccd_fallback_differs")
+            if write_intra:
+                # include_bonds=True was given and the structure has no intra-residue bond: today no
+                # chem_comp_bond category is written and the reader falls back to the CCD (documented for a
+                # file without the category); a writer that records "no bonds" explicitly returns exactly the
+                # input, which is what the property statement says.  Both are accepted.
+                intra_alts.append(("intra_none_as_in_input", dict(intra)))
         else:
             o.label("intra_from_ccd_fallback_same")
     added = 0
-    for i, j in reader_links(fl, spans):
+    optional = {}
+    for i, j, diff in reader_links(fl, spans, with_diff=True):
         if (i, j) not in inter:
-            inter[(i, j)] = BT_SINGLE
-            added += 1
+            if diff == 1:
+                inter[(i, j)] = BT_SINGLE
+                added += 1
+            else:
+                optional[(i, j)] = BT_SINGLE
     if added:
         o.label("link_added_by_reader")
-    exp.update(inter)
-    return exp
+    if optional:
+        o.label("link_optional_nonconsecutive_res_id")
+    alts = []
+    for label, d in intra_alts:
+        d = dict(d)
+        d.update(inter)
+        alts.append((label, d))
+    return BondSpec(alts, optional)
+
+
+def check_bonds(o, tag, got, spec):
+    """got: dict of the bonds read back; spec: BondSpec"""
+    hit = spec.match(got)
+    if hit is not None:
+        if len(spec.alternatives) > 1:
+            o.label("bonds_read_back=" + hit)
+        if spec.optional:
+            o.label("optional_link_present" if any(k in got for k in spec.optional) else "optional_link_absent")
+        return True
+    core, want = spec.nearest(got)
+    _report_bond_diff(o, tag, core, want)
+    return False
 
 
 def got_bonds(arr):
@@ -335,31 +412,22 @@ def routes_for(case):
     """a generated case compresses with one tolerance; hand-written cases without the key use both"""
     tol = case.get("compress_tol")
     comp = [r for r, t in ROUTE_TOL.items() if tol is None or t == tol]
+    if case.get("binary_only"):
+        return ["bcif"] + comp
     return ["cif_ser", "cif_io", "bcif"] + comp
 
 
-def fixed_point_safe(values, tol):
-    """compress() packs floats as int32 fixed point; C05 owns what happens on overflow.  Conservative
-    replica of the documented choice of decimals with one decimal of margin."""
-    a = np.asarray(values)
-    a = a[np.isfinite(a) & (a != 0)]
-    if a.size == 0:
-        return True
-    order = int(np.max(np.floor(np.log10(np.abs(a.astype(np.float64))))))
-    for d in range(-order, 60):
-        err = np.abs(np.round(a, d) - a)
-        if np.all(err < tol * np.abs(a)):
-            # d <= 17: the factor 10**d is stored as an integer in the file; 1e30: decoding must not overflow float32
-            amax = float(np.max(np.abs(a.astype(np.float64))))
-            return d <= 17 and amax < 1e30 and amax * 10.0 ** (d + 1) < 2.0**31
-    return False
-
-
-def write_file(arr, kind, write_intra, extra_names):
+def write_file(arr, kind, write_intra, extra_names, via_block=False):
     from biotite.structure.io import pdbx
 
     f = pdbx.CIFFile() if kind == "cif" else pdbx.BinaryCIFFile()
-    pdbx.set_structure(f, arr, include_bonds=write_intra, extra_fields=list(extra_names))
+    if via_block:
+        # the documented alternative: hand the block object itself to set_structure()
+        blk = pdbx.CIFBlock() if kind == "cif" else pdbx.BinaryCIFBlock()
+        pdbx.set_structure(blk, arr, include_bonds=write_intra, extra_fields=list(extra_names))
+        f["structure"] = blk
+    else:
+        pdbx.set_structure(f, arr, include_bonds=write_intra, extra_fields=list(extra_names))
     return f
 
 
@@ -380,14 +448,6 @@ def through_route(f, route):
     f.write(b)
     b.seek(0)
     return pdbx.BinaryCIFFile.read(b)
-
-
-def float_columns_safe(arr, tol):
-    cols = [arr.coord[..., 0].ravel(), arr.coord[..., 1].ravel(), arr.coord[..., 2].ravel()]
-    for k in ("b_factor", "occupancy"):
-        if k in arr.get_annotation_categories():
-            cols.append(arr.get_annotation(k))
-    return all(c.size <= 1 or fixed_point_safe(c, tol) for c in cols)
 
 
 # --------------------------------------------------------------------------
@@ -426,7 +486,7 @@ def extra_field_request(w):
     return req + list(w["extra"])
 
 
-def compare_atoms(o, got, w, tag, model=None, rows=None, tol=None, fields=True):
+def compare_atoms(o, got, w, tag, model=None, rows=None, tol=None, fields=True, skip=()):
     """got: AtomArray (model = 0-based model index or None for AtomArray input) or AtomArrayStack (model None).
     rows: indices of the expected atoms (alt-loc filter) or None for all."""
     import biotite.structure as struc
@@ -439,6 +499,8 @@ def compare_atoms(o, got, w, tag, model=None, rows=None, tol=None, fields=True):
         return False
     ok = True
     for k in MANDATORY:
+        if k in skip:
+            continue
         g = got.get_annotation(k).tolist()
         want = [w[k][i] for i in rows]
         ok &= o.check(g == want, "annotations_equal", lambda: f"{tag}: {k} got {g!r} want {want!r}")
@@ -455,10 +517,10 @@ def compare_atoms(o, got, w, tag, model=None, rows=None, tol=None, fields=True):
         wc = wc[0 if model is None else model][rows]
     o.check(gc.dtype == np.float32, "coordinates_identical", f"{tag}: coord dtype {gc.dtype}")
     if tol is None:
-        same = gc.shape == wc.shape and np.array_equal(
-            np.ascontiguousarray(gc, dtype=np.float32).view(np.uint32), np.ascontiguousarray(wc).view(np.uint32)
-        )
+        same = gc.shape == wc.shape and np.array_equal(_bits(gc), _bits(wc))
         ok &= o.check(same, "coordinates_identical", lambda: f"{tag}: coord got {gc.tolist()!r} want {wc.tolist()!r}")
+        if same and not np.array_equal(_bits(gc, False), _bits(wc, False)):
+            o.label("sign_of_zero_not_kept")
     else:
         ok &= _check_close(o, gc, wc, tol, "compressed_within_tolerance", f"{tag}: coord")
     if fields:
@@ -471,6 +533,22 @@ def compare_atoms(o, got, w, tag, model=None, rows=None, tol=None, fields=True):
                 continue
             g = got.get_annotation(k)
             want = [w[k][i] for i in rows]
+            if k == "label_entity_id":
+                # that set_structure() takes the column from an annotation of this name is a convenience the
+                # documentation does not mention (and the name cannot be passed in extra_fields): either the
+                # annotation comes back, or the column holds entity ids assigned by the writer - then one
+                # chain must not be split over several entities
+                if g.tolist() == want:
+                    o.label("entity_id_annotation_written")
+                else:
+                    chains = [w["chain_id"][i] for i in rows]
+                    per_chain = {}
+                    consistent = all(per_chain.setdefault(c, v) == v for c, v in zip(chains, g.tolist()))
+                    nonempty = all(str(v) not in ("", ".", "?") for v in g.tolist())
+                    o.label("entity_id_assigned_by_writer")
+                    ok &= o.check(consistent and nonempty, "optional_fields_equal",
+                                  lambda: f"{tag}: label_entity_id {g.tolist()!r} is neither the annotation {want!r} nor one id per chain")
+                continue
             if k == "atom_id" and w["atom_id_auto"] and model:
                 want = [v + model * n_all for v in want]
             if k in ("b_factor", "occupancy"):
@@ -490,8 +568,17 @@ def compare_atoms(o, got, w, tag, model=None, rows=None, tol=None, fields=True):
             g = got.get_annotation(name).tolist()
             want = [values[i] for i in rows]
             ok &= o.check(g == want, "extra_fields_equal", lambda: f"{tag}: {name} got {g!r} want {want!r}")
-    ok &= compare_box(o, got.box, w["box"], tag, w["m"] if is_stack else None)
+    ok &= compare_box(o, got.box, w["box"], tag, w["m"] if is_stack else None, tol)
     return ok
+
+
+def _bits(a, canonical_zero=True):
+    """bit pattern of float32 values; "identical coordinates" is decided on the bits, except that -0.0 and
+    +0.0 are the same number (a text form that writes "0.0" for both is faithful)"""
+    a = np.ascontiguousarray(a, dtype=np.float32)
+    if canonical_zero:
+        a = a + np.float32(0.0)  # -0.0 + 0.0 = +0.0, every other finite value unchanged
+    return a.view(np.uint32)
 
 
 def _check_close(o, got, want, tol, clause, what):
@@ -508,7 +595,9 @@ def _check_close(o, got, want, tol, clause, what):
     return o.check(not bad.any(), clause, lambda: f"{what}: got {got[bad][:5].tolist()} want {want[bad][:5].tolist()} (rel tol {tol})")
 
 
-def compare_box(o, gbox, wbox, tag, depth):
+def compare_box(o, gbox, wbox, tag, depth, tol=None):
+    """tol: relative float tolerance of the compress()ed route (the six cell parameters are floats of the file
+    like any other; that single values are stored uncompressed today is an optimisation)"""
     if wbox is None:
         return o.check(gbox is None, "box_equivalent", f"{tag}: box {gbox!r} although none was written")
     if not o.check(gbox is not None, "box_equivalent", f"{tag}: box lost"):
@@ -528,13 +617,19 @@ def compare_box(o, gbox, wbox, tag, depth):
     scale = max(wl)
     ref = vectors_from_unitcell(*unitcell_from_vectors(wbox))
     ok = True
+    t = tol or 0.0
+    # an angle moved by d rad moves the vector end by ~ length * d (d <= 2.1 t for angles <= 120 deg); the
+    # third vector of a flat cell (height >= 5 % by construction) amplifies this by up to ~20
+    atol_vec = max(2e-5, 50 * t) * scale
+    atol_len = max(1e-4, 2 * t) * scale
+    atol_ang = max(5e-3, 2 * t * math.pi)
     for b in boxes:
-        ok &= o.check(np.allclose(b, ref, rtol=0, atol=2e-5 * scale), "box_equivalent",
+        ok &= o.check(np.allclose(b, ref, rtol=0, atol=atol_vec), "box_equivalent",
                       lambda: f"{tag}: box {b.tolist()} want unit-cell round trip {ref.tolist()}")
         (gl, ga) = cell_params(b)
-        ok &= o.check(all(abs(x - y) <= 1e-4 * scale for x, y in zip(gl, wl)), "box_equivalent",
+        ok &= o.check(all(abs(x - y) <= atol_len for x, y in zip(gl, wl)), "box_equivalent",
                       lambda: f"{tag}: cell lengths {gl} want {wl}")
-        ok &= o.check(all(abs(x - y) <= 5e-3 for x, y in zip(ga, wa)), "box_equivalent",
+        ok &= o.check(all(abs(x - y) <= atol_ang for x, y in zip(ga, wa)), "box_equivalent",
                       lambda: f"{tag}: cell angles {ga} want {wa}")
     return ok
 
@@ -556,7 +651,7 @@ def same_decoded(o, a, b, tag):
         else:
             same = x.tolist() == y.tolist()
         o.check(same, "text_and_binary_agree", lambda: f"{tag}: {k} {x.tolist()!r} vs {y.tolist()!r}")
-    o.check(np.array_equal(a.coord.view(np.uint32), b.coord.view(np.uint32)), "text_and_binary_agree", f"{tag}: coord differ")
+    o.check(np.array_equal(_bits(a.coord), _bits(b.coord)), "text_and_binary_agree", f"{tag}: coord differ")
     if a.bonds is None or b.bonds is None:
         o.check(a.bonds is None and b.bonds is None, "text_and_binary_agree", f"{tag}: bonds present in one only")
     else:
@@ -572,15 +667,27 @@ def same_decoded(o, a, b, tag):
 # --------------------------------------------------------------------------
 # strategies
 # --------------------------------------------------------------------------
-def st_awk(max_size):
-    return st.one_of(
-        st.text("ABCXZ0123456789", min_size=1, max_size=max_size),
-        st.text(AWK, min_size=1, max_size=max_size),
-    )
+# values that are special in the text format (keywords, comment / data name / text field / frame openers,
+# blanks inside and around a value, the empty string).  The bare placeholders "." and "?" mean "inapplicable" /
+# "missing" in the text format and are not names there (C06's layer); a bare "?" is generated for the
+# BinaryCIF routes only (key binary_only, see st_structure; regression of fix C04-e).
+AWK_TOKENS = ["", "a b", "_x", "#x", ";x", "data_x", "loop_", "$x", "[x", " x", "x ", "save_", "stop_", "global_"]
+
+
+def st_awk(max_size, tokens=True):
+    plain = st.text("ABCXZ0123456789", min_size=1, max_size=max_size)
+    awkward = st.text(AWK, min_size=1, max_size=max_size)
+    if not tokens:
+        return st.one_of(plain, awkward)
+    special = st.sampled_from([t for t in AWK_TOKENS if len(t) <= max_size])
+    # about one name in forty is a special token (a structure has 10-40 names)
+    return st.integers(0, 39).flatmap(lambda r: special if r == 0 else (plain if r < 16 else awkward))
 
 
 def st_unknown_resname():
-    return st_awk(5).filter(lambda s: s.upper() not in BY_ID and s.upper() not in CANONICAL_NOT_IN_FIXTURE)
+    # an empty residue / atom name is refused by set_structure(include_bonds=True) with an explicit
+    # BadStructureError ("required to write intra-residue bonds"): not a well-formed name
+    return st_awk(5).filter(lambda s: s != "" and s.upper() not in BY_ID and s.upper() not in CANONICAL_NOT_IN_FIXTURE)
 
 
 def st_resname():
@@ -625,7 +732,7 @@ def st_atoms(draw, name, max_atoms, unique):
             atoms = [atoms[i] for i in draw(st.permutations(list(range(len(atoms)))))]
     n_extra = draw(st.integers(0 if atoms else 1, 2 if atoms else max(1, max_atoms)))
     for _ in range(n_extra):
-        atoms.append([draw(st_awk(6)), draw(st.sampled_from(ELEMENTS))])
+        atoms.append([draw(st_awk(6).filter(lambda s: s != "")), draw(st.sampled_from(ELEMENTS))])
     if unique:
         seen, uniq = set(), []
         for an, el in atoms:
@@ -641,6 +748,7 @@ def st_residues(draw, tier, max_res, max_atoms, unique_atoms):
     n_res = draw(st.integers(1, max_res))
     residues = []
     used = set()
+    names_at = {}
     chain = draw(st_awk(4))
     res_id = draw(st_res_id_start())
     ins = ""
@@ -649,7 +757,7 @@ def st_residues(draw, tier, max_res, max_atoms, unique_atoms):
     # residues that are *not* neighbours have res ids that differ by <= 1
     numbering = draw(st.sampled_from(["normal", "normal", "normal", "ins_run", "descending"]))
     steps = {
-        "normal": ["next", "next", "next", "next", "ins", "gap", "back", "chain", "chain_reset"],
+        "normal": ["next", "next", "next", "next", "ins", "gap", "back", "chain", "chain_reset", "hetname"],
         "ins_run": ["ins", "ins", "ins", "next", "chain"],
         "descending": ["back1", "back1", "back1", "ins", "next"],
     }[numbering]
@@ -670,6 +778,8 @@ def st_residues(draw, tier, max_res, max_atoms, unique_atoms):
                 res_id, ins = res_id - draw(st.integers(1, 50)), ""
             elif step == "chain":
                 chain, res_id, ins = draw(st_awk(4)), res_id + 1, ""
+            elif step == "hetname":
+                pass  # same chain, id and insertion code: only the residue name tells the two apart
             else:
                 chain, res_id, ins = draw(st_awk(4)), draw(st_res_id_start()), ""
         res_id = max(-INT32_MAX, min(INT32_MAX, res_id))
@@ -683,6 +793,13 @@ def st_residues(draw, tier, max_res, max_atoms, unique_atoms):
             name = draw(st_resname())
         key = (chain, res_id, ins)
         tries = 0
+        if r > 0 and step == "hetname" and name not in names_at.get(key, ()):
+            # microheterogeneity: (chain, res_id, ins_code) repeated with another residue name
+            names_at.setdefault(key, set()).add(name)
+            atoms = draw(st_atoms(name, max_atoms, unique_atoms))
+            hetero = draw(st.booleans())
+            residues.append({"chain": chain, "res_id": res_id, "ins": ins, "name": name, "hetero": hetero, "atoms": atoms})
+            continue
         while key in used:
             # make the residue uniquely identifiable
             if numbering == "ins_run" and tries < 20:
@@ -692,6 +809,7 @@ def st_residues(draw, tier, max_res, max_atoms, unique_atoms):
             key = (chain, res_id, ins)
             tries += 1
         used.add(key)
+        names_at.setdefault(key, set()).add(name)
         atoms = draw(st_atoms(name, max_atoms, unique_atoms))
         hetero = draw(st.booleans()) if _link_class(name) else draw(st.integers(0, 3)) > 0
         residues.append({"chain": chain, "res_id": res_id, "ins": ins, "name": name, "hetero": hetero, "atoms": atoms})
@@ -841,13 +959,40 @@ def _sizes(tier, small=False):
     return (8, 6) if small else (30, 10)
 
 
-def st_structure(tier, models=None, small=False, allow_bonds=True):
+def _put_question_mark(draw, residues):
+    """rename one chain id, one residue name unknown to the CCD or one atom name to a bare "?" (in place)"""
+    kind = draw(st.sampled_from(["chain", "res_name", "atom_name"]))
+    r = residues[draw(st.integers(0, len(residues) - 1))]
+    unknown = [x for x in residues if x["name"] not in BY_ID]
+    if kind == "res_name" and unknown:
+        old = unknown[draw(st.integers(0, len(unknown) - 1))]["name"]
+        for x in residues:
+            if x["name"] == old:
+                x["name"] = "?"
+    elif kind == "atom_name":
+        r["atoms"][draw(st.integers(0, len(r["atoms"]) - 1))][0] = "?"
+    else:
+        old = r["chain"]
+        for x in residues:
+            if x["chain"] == old:
+                x["chain"] = "?"
+
+
+def st_structure(tier, models=None, small=False, allow_bonds=True, question_mark=False):
     max_res, max_atoms = _sizes(tier, small)
 
     @st.composite
     def gen(draw):
+        # a few % of the cases: a name that is a bare "?".  In the text format this token means "missing"
+        # (outside the domain there), the binary format stores it like any other string: such a case goes
+        # through the BinaryCIF routes only (key binary_only)
+        binary_only = question_mark and allow_bonds and draw(st.integers(0, 24)) == 0
         bonds_kind = draw(st.sampled_from(["none", "empty"] + ["bonds"] * 8)) if allow_bonds else "none"
+        if binary_only:
+            bonds_kind = "bonds"
         residues = draw(st_residues(tier, max_res, max_atoms, unique_atoms=(bonds_kind != "none") or draw(st.integers(0, 3)) > 0))
+        if binary_only:
+            _put_question_mark(draw, residues)
         n = sum(len(r["atoms"]) for r in residues)
         narrowed = []
         case = {
@@ -865,7 +1010,11 @@ def st_structure(tier, models=None, small=False, allow_bonds=True):
             "dict_matching": draw(st.integers(0, 3)) == 0,
             # float_tolerance of the compress()ed BinaryCIF route
             "compress_tol": draw(st.sampled_from([1e-6, 1e-3, 1e-9])),
+            # set_structure() is handed a block object instead of the file
+            "via_block": draw(st.integers(0, 4)) == 0,
         }
+        if binary_only:
+            case["binary_only"] = True
         if case["coord_mode"] != "pdb":
             # explicit awkward values (denormal, 1e30, -0.0 ...) that shrink as values
             special = st.one_of(st.floats(width=32, allow_nan=False, allow_infinity=False),
@@ -901,6 +1050,11 @@ def _labels_structure(o, case, fl, spans):
         o.label("large_res_id")
     if any(fl["ins_code"]):
         o.label("ins_code")
+    if any(nm in AWK_TOKENS for nm in names):
+        o.label("name_special_in_text_format")
+    k3 = [(fl["chain_id"][s], fl["res_id"][s], fl["ins_code"][s]) for s, _ in spans]
+    if len(set(k3)) != len(k3):
+        o.label("residues_differ_by_name_only")
     if any(fl["hetero"]) and not all(fl["hetero"]):
         o.label("mixed_hetero")
     if any(nm not in BY_ID for nm in fl["res_name"]):
@@ -978,59 +1132,139 @@ def run_roundtrip(case):
     req = extra_field_request(w)
     m = case["models"]
     decoded = {}
-    import biotite.structure.io.pdbx.convert as _conv
-
-    threshold = _conv.FIND_MATCHES_SWITCH_THRESHOLD
-    if case.get("dict_matching") and has_bonds:
-        o.label("struct_conn_matching_by_dict")
-        _conv.FIND_MATCHES_SWITCH_THRESHOLD = -1
-    try:
-        _roundtrip_routes(o, case, fl, w, req, m, has_bonds, exp_bonds, decoded)
-    finally:
-        _conv.FIND_MATCHES_SWITCH_THRESHOLD = threshold
+    disclaimed = has_bonds and ambiguous_residue_class(fl, spans)
+    if disclaimed:
+        o.label("equal_residues_same_res_id_with_bonds")
+    with _dict_matching(o, bool(case.get("dict_matching")) and has_bonds):
+        _roundtrip_routes(o, case, fl, w, req, m, has_bonds, exp_bonds, decoded, disclaimed)
     return o
 
 
-def _roundtrip_routes(o, case, fl, w, req, m, has_bonds, exp_bonds, decoded):
+class _dict_matching:
+    """Route the struct_conn matching through the implementation used for very large files.  The switch is a
+    module constant that is not part of the public interface: if it is not there (renamed, other
+    heuristic) the case runs with the default matcher and says so in a label (the sub-check
+    large_struct_conn reaches the other matcher through the size alone)."""
+
+    NAME = "FIND_MATCHES_SWITCH_THRESHOLD"
+
+    def __init__(self, o, wanted):
+        self.o, self.wanted, self.mod, self.old = o, wanted, None, None
+
+    def __enter__(self):
+        if not self.wanted:
+            return self
+        try:
+            import importlib
+
+            mod = importlib.import_module("biotite.structure.io.pdbx.convert")
+        except ImportError:
+            mod = None
+        old = getattr(mod, self.NAME, None) if mod is not None else None
+        if isinstance(old, (int, float)) and not isinstance(old, bool):
+            self.mod, self.old = mod, old
+            setattr(mod, self.NAME, -1)
+            self.o.label("struct_conn_matching_by_dict")
+        else:
+            self.o.label("struct_conn_matching_switch_unavailable")
+        return self
+
+    def __exit__(self, *exc):
+        if self.mod is not None:
+            setattr(self.mod, self.NAME, self.old)
+        return False
+
+
+def ambiguous_residue_class(fl, spans):
+    """set_structure() Notes: "the written inter-residue bonds cannot be read again ... when two equal residues
+    in the same chain have the same (or a masked) res_id" - true if the structure has such a pair (same
+    chain, residue name and residue id; only the insertion code tells them apart)."""
+    seen = set()
+    for s, _ in spans:
+        key = (fl["chain_id"][s], fl["res_id"][s], fl["res_name"][s])
+        if key in seen:
+            return True
+        seen.add(key)
+    return False
+
+
+def read_structure(o, f, disclaimed, tag, **kw):
+    """get_structure(); for the class the documentation disclaims (see ambiguous_residue_class) a refusal to
+    assign the struct_conn rows is accepted - the structure is then read without bonds so that everything
+    else is still compared.  -> (structure, bonds_were_read)"""
+    from biotite import InvalidFileError
+    from biotite.structure.io import pdbx
+
+    if not (disclaimed and kw.get("include_bonds")):
+        return pdbx.get_structure(f, **kw), bool(kw.get("include_bonds"))
+    try:
+        return pdbx.get_structure(f, **kw), True
+    except InvalidFileError:
+        o.label("struct_conn_ambiguity_refused_as_documented")
+        kw = dict(kw, include_bonds=False)
+        return pdbx.get_structure(f, **kw), False
+
+
+def _roundtrip_routes(o, case, fl, w, req, m, has_bonds, exp_bonds, decoded, disclaimed=False):
     with warnings.catch_warnings():
         warnings.simplefilter("ignore")
         arr = build_array(case, fl)
         extra_names = list(w["extra"])
-        files = {"cif": write_file(arr, "cif", case["write_intra"], extra_names),
-                 "bcif": write_file(arr, "bcif", case["write_intra"], extra_names)}
+        via_block = bool(case.get("via_block"))
+        if via_block:
+            o.label("set_structure_on_block_object")
+        binary_only = bool(case.get("binary_only"))
+        files = {"bcif": write_file(arr, "bcif", case["write_intra"], extra_names, via_block)}
+        if binary_only:
+            o.label("bare_question_mark_name_binary_routes_only")
+        else:
+            files["cif"] = write_file(arr, "cif", case["write_intra"], extra_names, via_block)
         from biotite.structure.io import pdbx
 
-        # the caller's extra_fields container (list, tuple or set) is one object reused for every route:
-        # reading must neither depend on nor change it
+        # the caller's extra_fields container is one object reused for every route: reading must neither
+        # depend on nor change it.  The documented type is "list of str"; a tuple or a set works today and
+        # is used too, but an implementation that insists on a list (TypeError / AttributeError) is within
+        # the documentation: the case then goes on with a list.
         container = (list, tuple, set)[(len(fl["atom_name"]) + len(req)) % 3]
         shared_req = container(req)
         shared_before = container(shared_req)
-        o.label("extra_fields_as_" + container.__name__)
         for route in routes_for(case):
             tol = ROUTE_TOL.get(route)
-            if tol is not None and not float_columns_safe(arr, tol):
-                o.label("compress_skipped_fixed_point_range_c05")
-                continue
+            if tol is not None:
+                o.label("compressed_" + route)
             f2 = through_route(files["cif" if route.startswith("cif") else "bcif"], route)
-            got = pdbx.get_structure(f2, model=None if m > 0 else 1, extra_fields=shared_req, include_bonds=has_bonds)
+            kw = dict(model=None if m > 0 else 1, include_bonds=has_bonds)
+            pre = pdbx.get_structure(f2, model=kw["model"], use_author_fields=False) if binary_only else None
+            if container is list:
+                got, bonds_read = read_structure(o, f2, disclaimed, route, extra_fields=shared_req, **kw)
+            else:
+                try:
+                    got, bonds_read = read_structure(o, f2, disclaimed, route, extra_fields=shared_req, **kw)
+                except (TypeError, AttributeError):
+                    o.label("extra_fields_container_rejected")
+                    container = list
+                    shared_req = list(req)
+                    shared_before = list(req)
+                    got, bonds_read = read_structure(o, f2, disclaimed, route, extra_fields=shared_req, **kw)
             o.check(
-                shared_req == shared_before and type(shared_req) is container,
+                shared_req == shared_before,
                 "reading_does_not_modify_arguments",
                 lambda: f"{route}: extra_fields changed from {shared_before!r} to {shared_req!r}",
             )
             decoded[route] = got
             ok = compare_atoms(o, got, w, route, tol=tol)
-            if has_bonds:
+            if has_bonds and bonds_read:
                 if o.check(got.bonds is not None, "same_typed_bonds", f"{route}: no BondList"):
-                    gb = got_bonds(got)
-                    if gb != exp_bonds:
-                        _report_bond_diff(o, route, gb, exp_bonds)
+                    check_bonds(o, route, got_bonds(got), exp_bonds)
             else:
                 o.check(got.bonds is None, "same_typed_bonds", f"{route}: bonds appeared")
             if route == "cif_ser" or route == "bcif":
                 # other documented ways of reading the same file
                 g2 = pdbx.get_structure(f2, model=None if m > 0 else 1, use_author_fields=False)
-                compare_atoms(o, g2, w, route + "/label_fields", fields=False)
+                # set_structure() does not document what it puts into the label_xxx columns for the chain and
+                # the residue number (in deposited files label_seq_id / label_asym_id differ from the author
+                # values): the label route decides the fields that have one meaning only
+                compare_atoms(o, g2, w, route + "/label_fields", fields=False, skip=("res_id", "chain_id"))
                 o.check(g2.bonds is None, "same_typed_bonds", f"{route}: include_bonds=False gave bonds")
                 if m == 0:
                     g3 = pdbx.get_structure(f2.block, extra_fields=list(req))
@@ -1038,10 +1272,37 @@ def _roundtrip_routes(o, case, fl, w, req, m, has_bonds, exp_bonds, decoded):
                     w1["coord"] = w["coord"][np.newaxis]
                     compare_atoms(o, g3, w1, route + "/model=None")
                 else:
-                    g3 = pdbx.get_structure(f2, model=-1, extra_fields=list(req), include_bonds=has_bonds)
+                    g3, bonds_read = read_structure(o, f2, disclaimed, route, model=-1, extra_fields=list(req), include_bonds=has_bonds)
                     compare_atoms(o, g3, w, route + "/model=-1", model=m - 1)
-                    if has_bonds and g3.bonds is not None and got_bonds(g3) != exp_bonds:
-                        _report_bond_diff(o, route + "/model=-1", got_bonds(g3), exp_bonds)
+                    if has_bonds and bonds_read and g3.bonds is not None:
+                        check_bonds(o, route + "/model=-1", got_bonds(g3), exp_bonds)
+            if binary_only:
+                # the file object was read several times by now: it must still answer as it did the first
+                # time and still be writable (the reader replaces "?" by "." for the struct_conn matching -
+                # on its own arrays, not on those of the file)
+                again, bonds_again = read_structure(o, f2, disclaimed, route, extra_fields=list(req), **kw)
+                same = compare_atoms(o, again, w, route + "/second read", tol=tol)
+                if has_bonds and bonds_again and again.bonds is not None:
+                    same &= check_bonds(o, route + "/second read", got_bonds(again), exp_bonds)
+                post = pdbx.get_structure(f2, model=kw["model"], use_author_fields=False)
+                for k in MANDATORY:
+                    same &= o.check(pre.get_annotation(k).tolist() == post.get_annotation(k).tolist(), "reading_does_not_modify_file",
+                                    lambda: f"{route}: label fields, {k} was {pre.get_annotation(k).tolist()!r} before and is "
+                                            f"{post.get_annotation(k).tolist()!r} after get_structure(include_bonds={has_bonds})")
+                if not same:
+                    o.fail("reading_does_not_modify_file", f"{route}: the second read of one file object differs from the first")
+                try:
+                    out = io.BytesIO()
+                    f2.write(out)
+                    out.seek(0)
+                    f3 = pdbx.BinaryCIFFile.read(out)
+                except Exception as e:  # noqa: BLE001 - turned into a violation, not swallowed
+                    o.fail("reading_does_not_modify_file", f"{route}: the file object cannot be written after reading: {type(e).__name__}: {e}")
+                else:
+                    third, _ = read_structure(o, f3, disclaimed, route, extra_fields=list(req), **kw)
+                    if not compare_atoms(o, third, w, route + "/written again", tol=tol):
+                        o.fail("reading_does_not_modify_file", f"{route}: the file written after reading decodes differently")
+        o.label("extra_fields_as_" + container.__name__)
         if "cif_ser" in decoded and "bcif" in decoded:
             same_decoded(o, decoded["cif_ser"], decoded["bcif"], "cif_ser vs bcif")
         if "cif_ser" in decoded and "cif_io" in decoded:
@@ -1096,58 +1357,148 @@ def run_models(case):
     o.mark_nontrivial(m >= 2)
     w = want_from_case(case, fl)
     req = extra_field_request(w)
+    disclaimed = has_bonds and ambiguous_residue_class(fl, spans)
+    from biotite.structure import AtomArray
+
     with warnings.catch_warnings():
         warnings.simplefilter("ignore")
         arr = build_array(case, fl)
-        for kind, route in (("cif", "cif_ser"), ("bcif", "bcif")):
+        # "also after compression": the compressed file answers the same model requests (within its tolerance)
+        for kind, route in (("cif", "cif_ser"), ("bcif", "bcif"), ("bcif", "bcif_c6")):
+            tol = ROUTE_TOL.get(route)
             f2 = through_route(write_file(arr, kind, case["write_intra"], list(w["extra"])), route)
             o.check_eq(pdbx.get_model_count(f2), m, "model_selects_matching_rows", f"{route}: model count")
-            stack = pdbx.get_structure(f2, extra_fields=list(req), include_bonds=has_bonds)
-            compare_atoms(o, stack, w, route + "/all")
-            for k in range(-m - 3, m + 4):
+            stack, bonds_read = read_structure(o, f2, disclaimed, route, extra_fields=list(req), include_bonds=has_bonds)
+            compare_atoms(o, stack, w, route + "/all", tol=tol)
+            if has_bonds and bonds_read and o.check(stack.bonds is not None, "same_typed_bonds", f"{route}: no BondList"):
+                check_bonds(o, f"{route}/all", got_bonds(stack), exp_bonds)
+            for k in range(-m - 3, m + 4) if tol is None else range(1, m + 1):
+                # (the compressed file is asked for the models 1..m only: compress() is slow)
                 if 1 <= k <= m:
                     idx = k - 1
                 elif -m <= k <= -1:
                     idx = m + k
                 else:
+                    # "model number (starting at 1)", negative values count from the last model: every other
+                    # number names no model.  No exception type is documented - any error will do, a returned
+                    # structure will not.
                     o.label("model_out_of_range")
-                    o.expect_raises((ValueError,), lambda: pdbx.get_structure(f2, model=k), "nonexistent_model_rejected",
-                                    f"{route}: model={k} of {m}")
+                    e = o.expect_raises((Exception,), lambda: pdbx.get_structure(f2, model=k), "nonexistent_model_rejected",
+                                        f"{route}: model={k} of {m}")
+                    if e is not None:
+                        o.label("model_out_of_range_raises_" + type(e).__name__)
                     continue
-                got = pdbx.get_structure(f2, model=k, extra_fields=list(req), include_bonds=has_bonds)
-                from biotite.structure import AtomArray
-
+                got, bonds_read = read_structure(o, f2, disclaimed, route, model=k, extra_fields=list(req), include_bonds=has_bonds)
                 if not o.check(isinstance(got, AtomArray), "model_selects_matching_rows", f"{route}: model={k} gave {type(got).__name__}"):
                     continue
-                ok = compare_atoms(o, got, w, f"{route}/model={k}", model=idx)
+                ok = compare_atoms(o, got, w, f"{route}/model={k}", model=idx, tol=tol)
                 if not ok:
                     o.fail("model_selects_matching_rows", f"{route}: model={k} of {m} is not model index {idx}")
-                if has_bonds and got.bonds is not None and got_bonds(got) != exp_bonds:
-                    _report_bond_diff(o, f"{route}/model={k}", got_bonds(got), exp_bonds)
+                if has_bonds and bonds_read and o.check(got.bonds is not None, "same_typed_bonds", f"{route}/model={k}: no BondList"):
+                    check_bonds(o, f"{route}/model={k}", got_bonds(got), exp_bonds)
     return o
 
 
 # --------------------------------------------------------------------------
 # run: alternate locations
 # --------------------------------------------------------------------------
+NO_ALTLOC = (".", "?", " ", "")
+
+
+def _rows_for(spans, alt, chosen):
+    """chosen: one id (or None) per residue -> indices kept: atoms without id + atoms of the chosen id"""
+    keep = [a in NO_ALTLOC for a in alt]
+    for (s, e), c in zip(spans, chosen):
+        for i in range(s, e):
+            if c is not None and alt[i] == c:
+                keep[i] = True
+    return [i for i, k in enumerate(keep) if k]
+
+
 def ref_altloc_filter(fl, spans, alt, occ, policy):
-    keep = [a in (".", "?") for a in alt]
+    """'first': the id appearing first in the residue; 'occupancy': the id with the highest summed occupancy
+    (the reading implemented today; see occupancy_readings for the others the documentation admits)"""
+    chosen = []
     for s, e in spans:
-        letters = [alt[i] for i in range(s, e) if alt[i] not in (".", "?")]
+        letters = [alt[i] for i in range(s, e) if alt[i] not in NO_ALTLOC]
         if not letters:
-            continue
-        if policy == "first":
-            chosen = letters[0]
+            chosen.append(None)
+        elif policy == "first":
+            chosen.append(letters[0])
         else:
             sums = {}
             for i in range(s, e):
-                if alt[i] not in (".", "?"):
+                if alt[i] not in NO_ALTLOC:
                     sums[alt[i]] = sums.get(alt[i], 0) + occ[i]
-            chosen = max(sorted(sums), key=lambda a: sums[a])
-        for i in range(s, e):
-            if alt[i] == chosen:
-                keep[i] = True
-    return [i for i, k in enumerate(keep) if k]
+            chosen.append(max(sorted(sums), key=lambda a: sums[a]))
+    return _rows_for(spans, alt, chosen)
+
+
+def occupancy_readings(spans, alt, occ_int, limit=48):
+    """"the altloc ID with the highest occupancy for a residue" / "of which the corresponding occupancy values
+    are highest for the entire residue": the documentation does not say how the values of one id are
+    combined.  -> {reading: [row lists]} for sum, mean and max of the (integer, hundredths) occupancies of
+    each id; a tie under one reading admits every tied id.  None if the number of combinations exceeds
+    `limit` (nothing is decided then)."""
+    import itertools
+
+    out = {}
+    total = 0
+    for name in ("sum", "mean", "max"):
+        winners = []
+        for s, e in spans:
+            vals = {}
+            for i in range(s, e):
+                if alt[i] not in NO_ALTLOC:
+                    vals.setdefault(alt[i], []).append(occ_int[i])
+            if not vals:
+                winners.append([None])
+                continue
+            if name == "sum":
+                score = {a: (sum(v), 1) for a, v in vals.items()}
+            elif name == "mean":
+                score = {a: (sum(v), len(v)) for a, v in vals.items()}
+            else:
+                score = {a: (max(v), 1) for a, v in vals.items()}
+            # exact comparison of fractions p/q by cross-multiplication
+            best = [a for a in score if all(score[a][0] * score[b][1] >= score[b][0] * score[a][1] for b in score)]
+            winners.append(sorted(best))
+        n_comb = 1
+        for wl in winners:
+            n_comb *= len(wl)
+        total += n_comb
+        if total > limit:
+            return None
+        out[name] = [_rows_for(spans, alt, combo) for combo in itertools.product(*winners)]
+    return out
+
+
+def check_occupancy_rows(o, got, w, tag, readings, model=None):
+    """the structure read with altloc='occupancy' must be the row set of one of the documented readings"""
+    if readings is None:
+        o.label("occupancy_policy_too_many_ties")
+        o.ambiguous += 1
+        return True
+    distinct = []
+    for name in ("sum", "mean", "max"):
+        for rows in readings[name]:
+            if rows not in [r for _, r in distinct]:
+                distinct.append((name, rows))
+    if len(distinct) == 1:
+        o.label("occupancy_policy_all_readings_agree")
+        return compare_atoms(o, got, w, tag, rows=distinct[0][1], model=model)
+    o.label("occupancy_policy_sum_mean_max_differ")
+    for name, rows in distinct:
+        if compare_atoms(Outcome(), got, w, tag, rows=rows, model=model):
+            o.label("occupancy_policy_observed=" + name)
+            return compare_atoms(o, got, w, tag, rows=rows, model=model)
+    # none fits: report against the reading implemented today
+    return compare_atoms(o, got, w, tag, rows=readings["sum"][0], model=model)
+
+
+def _norm_alt(ids):
+    """which placeholder stands for "no alternate location" in the altloc_id annotation is not specified"""
+    return ["." if a in NO_ALTLOC else a for a in ids]
 
 
 def st_altloc(tier):
@@ -1169,7 +1520,12 @@ def st_altloc(tier):
                 k = 2 if whole else (1 if plain else draw(st.sampled_from([2, 1, 3, 1, 2])))
                 if k == 1:
                     atoms.append([an, el])
-                    alt.append(draw(st.sampled_from([".", ".", ".", "?", "A"])) if not whole else letters[0])
+                    if whole:
+                        alt.append(letters[0])
+                    elif plain:
+                        alt.append(draw(st.sampled_from([".", ".", "?"])))
+                    else:
+                        alt.append(draw(st.sampled_from([".", ".", ".", "?", "A"])))
                 else:
                     for c in range(k):
                         atoms.append([an, el])
@@ -1258,6 +1614,7 @@ def run_altloc(case):
     unit_rows = ref_altloc_filter(fl, spans, alt, [1.0] * n, "occupancy")
     if first_rows != occ_rows:
         o.label("first_differs_from_occupancy")
+    readings = occupancy_readings(spans, alt, case["occ"])
     w = want_from_case(case, fl)
     req = extra_field_request(w)
     with warnings.catch_warnings():
@@ -1281,6 +1638,7 @@ def run_altloc(case):
                 cat["label_alt_id"] = pdbx.BinaryCIFColumn(alt_all, mask if mask.any() else None)
             if case["occ_via"] == "edit":
                 cat["occupancy"] = np.array(occ * reps)
+            f.block["atom_site"] = cat  # whether block[...] hands out the stored object or a copy is not documented
             f2 = through_route(f, route)
             model = None if m > 0 else 1
             for policy in ("first", "occupancy", "all"):
@@ -1289,7 +1647,7 @@ def run_altloc(case):
                 if policy == "all":
                     rows = list(range(n))
                     if o.check("altloc_id" in got.get_annotation_categories(), "altloc_all_keeps_every_row", f"{route}: no altloc_id"):
-                        o.check_eq(got.altloc_id.tolist(), alt, "altloc_all_keeps_every_row", f"{route}: altloc_id")
+                        o.check_eq(_norm_alt(got.altloc_id.tolist()), _norm_alt(alt), "altloc_all_keeps_every_row", f"{route}: altloc_id")
                 elif policy == "first":
                     rows = first_rows
                 elif case["occ_via"] == "absent":
@@ -1302,33 +1660,34 @@ def run_altloc(case):
                             rows = unit_rows
                 else:
                     rows = occ_rows
+                    if not check_occupancy_rows(o, got, w, f"{route}/altloc={policy}", readings):
+                        o.fail("altloc_policy_selects_matching_rows", f"{route}: altloc={policy} alt={alt} occ={occ} want rows {rows} (sum), or those of mean / max")
+                    continue
                 ok = compare_atoms(o, got, w, f"{route}/altloc={policy}", rows=rows)
                 if not ok:
                     o.fail("altloc_policy_selects_matching_rows", f"{route}: altloc={policy} alt={alt} occ={occ} want rows {rows}")
-            if m > 1:
-                got = pdbx.get_structure(f2, model=m, altloc="occupancy" if case["occ_via"] != "absent" else "first", extra_fields=list(req))
-                rows = occ_rows if case["occ_via"] != "absent" else first_rows
-                if case["occ_via"] == "absent" and first_rows != unit_rows:
-                    continue
-                if not compare_atoms(o, got, w, f"{route}/model={m}/altloc", rows=rows, model=m - 1):
+            if m > 1 and not (case["occ_via"] == "absent" and first_rows != unit_rows):
+                if case["occ_via"] == "absent":
+                    got = pdbx.get_structure(f2, model=m, altloc="first", extra_fields=list(req))
+                    good = compare_atoms(o, got, w, f"{route}/model={m}/altloc", rows=first_rows, model=m - 1)
+                else:
+                    got = pdbx.get_structure(f2, model=m, altloc="occupancy", extra_fields=list(req))
+                    good = check_occupancy_rows(o, got, w, f"{route}/model={m}/altloc", readings, model=m - 1)
+                if not good:
                     o.fail("altloc_policy_selects_matching_rows", f"{route}: model={m} with alt-loc filter")
             if letters:
-                o.expect_raises((ValueError,), lambda: pdbx.get_structure(f2, model=1, altloc="verif_bogus"),
-                                "altloc_policy_selects_matching_rows", f"{route}: bogus altloc option")
+                # the parameter lists its three legal values; no exception type is documented for another one
+                e = o.expect_raises((Exception,), lambda: pdbx.get_structure(f2, model=1, altloc="verif_bogus"),
+                                    "altloc_policy_selects_matching_rows", f"{route}: bogus altloc option")
+                if e is not None:
+                    o.label("bogus_altloc_raises_" + type(e).__name__)
             if m > 1 and letters and case["occ_via"] == "edit" and case.get("occ_last") is not None:
                 # alternate locations that differ between the models: a single requested model must be
                 # filtered by its own ids and occupancies
                 pm = dict(zip("ABC", case["alt_perm"]))
                 alt_last = [pm.get(a, a) for a in alt]
                 occ_last = [v / 100.0 for v in case["occ_last"]]
-                tie = False
-                for s0, e0 in spans:
-                    sums = {}
-                    for i in range(s0, e0):
-                        if alt_last[i] not in (".", "?"):
-                            sums[alt_last[i]] = sums.get(alt_last[i], 0) + case["occ_last"][i]
-                    vals = sorted(sums.values(), reverse=True)
-                    tie = tie or (len(vals) >= 2 and vals[0] == vals[1])
+                readings_last = occupancy_readings(spans, alt_last, case["occ_last"])
                 f3 = write_file(arr, kind, False, list(w["extra"]))
                 cat3 = f3.block["atom_site"]
                 alt_all3 = np.array(alt * (m - 1) + alt_last)
@@ -1338,19 +1697,18 @@ def run_altloc(case):
                     mask3 = np.where(alt_all3 == ".", MASK_INAPPLICABLE, np.where(alt_all3 == "?", MASK_MISSING, MASK_PRESENT)).astype(np.uint8)
                     cat3["label_alt_id"] = pdbx.BinaryCIFColumn(alt_all3, mask3 if mask3.any() else None)
                 cat3["occupancy"] = np.array(occ * (m - 1) + occ_last)
+                f3.block["atom_site"] = cat3
                 f4 = through_route(f3, route)
                 o.label("altlocs_differ_between_models")
                 for mk in (m, -1):
                     got = pdbx.get_structure(f4, model=mk, altloc="all", extra_fields=list(req))
                     if o.check("altloc_id" in got.get_annotation_categories(), "altloc_all_keeps_every_row", f"{route}: no altloc_id"):
-                        o.check_eq(got.altloc_id.tolist(), alt_last, "altloc_policy_selects_matching_rows", f"{route}: altloc_id of model {mk} (ids differ between models)")
-                    if not tie:
-                        got = pdbx.get_structure(f4, model=mk, altloc="occupancy", extra_fields=list(req))
-                        rows = ref_altloc_filter(fl, spans, alt_last, occ_last, "occupancy")
-                        if not compare_atoms(o, got, w, f"{route}/model={mk}/altloc=occupancy (per-model ids)", rows=rows, model=m - 1):
-                            o.fail("altloc_policy_selects_matching_rows", f"{route}: model={mk}, occupancies of the last model {occ_last}, ids {alt_last}")
+                        o.check_eq(_norm_alt(got.altloc_id.tolist()), _norm_alt(alt_last), "altloc_policy_selects_matching_rows", f"{route}: altloc_id of model {mk} (ids differ between models)")
+                    got = pdbx.get_structure(f4, model=mk, altloc="occupancy", extra_fields=list(req))
+                    if not check_occupancy_rows(o, got, w, f"{route}/model={mk}/altloc=occupancy (per-model ids)", readings_last, model=m - 1):
+                        o.fail("altloc_policy_selects_matching_rows", f"{route}: model={mk}, occupancies of the last model {occ_last}, ids {alt_last}")
                 got = pdbx.get_structure(f4, model=1, altloc="occupancy", extra_fields=list(req))
-                if not compare_atoms(o, got, w, f"{route}/model=1/altloc=occupancy (per-model ids)", rows=occ_rows, model=0):
+                if not check_occupancy_rows(o, got, w, f"{route}/model=1/altloc=occupancy (per-model ids)", readings, model=0):
                     o.fail("altloc_policy_selects_matching_rows", f"{route}: model=1 of a file whose last model has other ids")
         for policy in ("first", "occupancy", "all"):
             same_decoded(o, decoded[("cif_ser", policy)], decoded[("bcif", policy)], f"altloc={policy}: cif vs bcif")
@@ -1407,7 +1765,7 @@ def run_bond_type(case):
 # declarations
 # --------------------------------------------------------------------------
 def _st_roundtrip(tier):
-    return st_structure(tier)
+    return st_structure(tier, question_mark=True)
 
 
 def _st_models(tier):
@@ -1489,8 +1847,10 @@ def run_large_conn(case):
 def st_two_blocks(tier):
     @st.composite
     def gen(draw):
-        a = draw(st_structure(tier, small=True, allow_bonds=False, models=st.sampled_from([0, 0, 2])))
-        b = draw(st_structure(tier, small=True, allow_bonds=False, models=st.sampled_from([0, 0, 2])))
+        # bonds in half of the files: struct_conn / chem_comp_bond have to land in the block of their structure
+        with_bonds = draw(st.booleans())
+        a = draw(st_structure(tier, small=True, allow_bonds=with_bonds, models=st.sampled_from([0, 0, 2])))
+        b = draw(st_structure(tier, small=True, allow_bonds=with_bonds, models=st.sampled_from([0, 0, 2])))
         return {
             "first": a, "second": b,
             "names": draw(st.sampled_from([["first", "second"], ["A", "B"], ["x1", "structure_2"]])),
@@ -1514,7 +1874,16 @@ def run_two_blocks(case):
         if len(set(keys)) != len(keys) or len(spans) != len(c["residues"]):
             o.invalid = True
             return o
-        parts.append((c, fl, want_from_case(c, fl)))
+        for fid in c.get("narrowed", []):
+            o.exclude(fid)
+        spec = None
+        if c.get("bonds") is not None:
+            spec = expected_bonds(o, c, fl, spans, c["write_intra"])
+            if spec is None:
+                o.invalid = True
+                return o
+        parts.append((c, fl, want_from_case(c, fl), spec, c.get("bonds") is not None and ambiguous_residue_class(fl, spans)))
+    o.label("with_bonds" if any(p[3] is not None for p in parts) else "without_bonds")
     n1, n2 = case["names"]
     with warnings.catch_warnings():
         warnings.simplefilter("ignore")
@@ -1522,18 +1891,25 @@ def run_two_blocks(case):
         if case["preexisting"]:
             f["other"] = pdbx.CIFBlock() if case["kind"] == "cif" else pdbx.BinaryCIFBlock()
             o.label("file_had_a_block_before")
-        for name, (c, fl, w) in zip((n1, n2), parts):
-            pdbx.set_structure(f, build_array(c, fl), data_block=name, extra_fields=list(w["extra"]))
+        for name, (c, fl, w, spec, _) in zip((n1, n2), parts):
+            pdbx.set_structure(f, build_array(c, fl), data_block=name, extra_fields=list(w["extra"]),
+                               include_bonds=bool(c.get("write_intra")) and spec is not None)
         want_names = (["other"] if case["preexisting"] else []) + [n1, n2]
         o.check_eq(list(f.keys()), want_names, "data_block_selects_the_block", "block names after two set_structure(data_block=...) calls")
         f2 = through_route(f, "cif_ser" if case["kind"] == "cif" else "bcif")
-        for name, (c, fl, w) in zip((n1, n2), parts):
+        for name, (c, fl, w, spec, disclaimed) in zip((n1, n2), parts):
             if name not in f2.keys():
                 o.fail("data_block_selects_the_block", f"block {name!r} missing after the round trip: {list(f2.keys())}")
                 continue
             m = c["models"]
-            got = pdbx.get_structure(f2, model=None if m > 0 else 1, data_block=name, extra_fields=list(extra_field_request(w)))
+            got, bonds_read = read_structure(o, f2, disclaimed, name, model=None if m > 0 else 1, data_block=name,
+                                             extra_fields=list(extra_field_request(w)), include_bonds=spec is not None)
             compare_atoms(o, got, w, f"data_block={name}")
+            if spec is not None and bonds_read:
+                if o.check(got.bonds is not None, "same_typed_bonds", f"data_block={name}: no BondList"):
+                    check_bonds(o, f"data_block={name}", got_bonds(got), spec)
+            elif spec is None:
+                o.check(got.bonds is None, "same_typed_bonds", f"data_block={name}: bonds appeared")
     o.label("kind=" + case["kind"])
     o.mark_nontrivial()
     return o
@@ -1572,7 +1948,7 @@ SUBS = [
         "models",
         _st_models,
         run_models,
-        quick=480,
+        quick=420,
         thorough=20000,
         rule="stack with >= 2 models",
         clauses="model=k selects exactly model k, negative k counts from the end, 0 and non-existent models raise",
@@ -1621,7 +1997,6 @@ def _f2_intra_coordination_keyerror(sub, case, clause, message):
         and case["placement"] == "intra"
         and case["type"] == BT_COORD
         and message.startswith("KeyError")
-        and "_set_intra_residue_bonds" in message
     )
 
 
